@@ -44,6 +44,25 @@ pub open spec fn updated(c: CV, now: int) -> CV {
     }
 }
 
+/// what every clock observation preserves: limit and timeout, a count that sits at its limit, an expiry flag once raised
+pub open spec fn count_sticky(o: CV, n: CV) -> bool {
+    &&& n.max == o.max && n.timeout == o.timeout
+    &&& (o.count == o.max ==> n.count == n.max)
+    &&& n.count >= o.count
+}
+
+pub proof fn lemma_updated_sticky(c: CV, now: int)
+    requires c.timeout > 0, 0 <= c.count <= c.max,
+    ensures count_sticky(c, updated(c, now)), c.occurred ==> updated(c, now).occurred,
+{
+    if !c.paused {
+        let k = expirations(c, now);
+        if now - c.start >= 0 {
+            assert(k >= 0) by (nonlinear_arith) requires k == (now - c.start) / c.timeout, now - c.start >= 0, c.timeout > 0;
+        }
+    }
+}
+
 pub proof fn lemma_expirations_unique(start: int, timeout: int, now: int, j: int)
     requires
         timeout > 0,
